@@ -337,6 +337,27 @@ def run_one(rng, counters):
             rng.shuffle(regs)
             opts["regions"] = regs
             opts["regions_hostile"] = True
+        if opts.get("regions") and len(opts["regions"]) > 1 and P == 2 and rng.random() < 0.5:
+            # a long deletion record (homozygous reference in every sample) that reaches from one requested region into the next
+            regs = sorted((r_ for r_ in opts["regions"] if r_[2] is not None), key=lambda t: (t[0], t[1]))
+            for (c1, s1, e1), (c2, s2, e2) in zip(regs, regs[1:]):
+                if c1 != c2 or s2 < e1 or e1 < 200:
+                    continue
+                start = e1 - rng.randint(40, 150)
+                end = min(len(sim.ref[c1]) - 1, s2 + rng.randint(5, 60))
+                if end - start < 10 or any(r_["chrom"] == c1 and r_["pos"] == start + 1 for r_ in doc.records):
+                    continue
+                rec = {"chrom": c1, "pos": start + 1, "id": ".", "ref": sim.ref[c1][start:end], "alts": [sim.ref[c1][start]], "qual": ".", "filter": "PASS", "info": ".",
+                       "fmt": list(doc.records[0]["fmt"]), "calls": [dict((k_, "0/0" if k_ == "GT" else ".") for k_ in doc.records[0]["fmt"]) for _ in doc.samples], "kind": "del"}
+                idx = next((k_ for k_, r_ in enumerate(doc.records) if r_["chrom"] == c1 and r_["pos"] > start + 1), None)
+                if idx is None:
+                    idx = max(k_ for k_, r_ in enumerate(doc.records) if r_["chrom"] == c1) + 1 if any(r_["chrom"] == c1 for r_ in doc.records) else len(doc.records)
+                doc.records.insert(idx, rec)
+                opts["long_deletion_across_regions"] = True
+                break
+            if opts.get("long_deletion_across_regions"):
+                doc.write(vcf, compress=True)
+                counters["runs_with_record_spanning_two_regions"] = counters.get("runs_with_record_spanning_two_regions", 0) + 1
         desc = {"params": p, "options": opts}
         out = os.path.join(tmp, "out.bam")
         lst = os.path.join(tmp, "list.tsv")
